@@ -140,6 +140,12 @@ def check(run):
             nf = int(rng.integers(1, 7))
             spec = {f'f{j}': (DTS[int(rng.integers(0, len(DTS)))], SHAPES[int(rng.integers(0, 3))]) for j in range(nf)}
             comp = [None, 'zlib', 'blsc'][k % 3]
+            if k % 7 == 5:
+                # columns stored in the other byte order (ASDF records the order per array): "raw array bytes" are the stored bytes
+                nfiles = max(nfiles, 2)
+                for j, n in enumerate(list(spec)[:2]):
+                    spec[n] = (['>f4', '>i8', '>f8', '>u2'][(k // 7 + j) % 4], spec[n][1])
+                run.count('invocations_with_big_endian_columns')
             # multi-megabyte fields whose files differ in size by orders of magnitude (a large compressed file followed by tiny ones, or the
             # reverse): whatever reads or decompresses them, the payloads must still come out in argument order
             big = k % 10 == 4
@@ -220,7 +226,7 @@ def check(run):
                     compare(run, pipe.getvalue(), arrs, fields, dict(desc, data_key='halos'))
             # the same paths piped again after the files were rewritten with other row counts / dtypes (nothing may be remembered per path)
             if k % 9 == 1 and not big:
-                spec2 = {n: (DTS[(DTS.index(spec[n][0]) + 1 + j) % len(DTS)], spec[n][1]) for j, n in enumerate(spec)}
+                spec2 = {n: (DTS[((DTS.index(spec[n][0]) if spec[n][0] in DTS else 3) + 1 + j) % len(DTS)], spec[n][1]) for j, n in enumerate(spec)}
                 fns2, arrs2 = make_files(rng, d, len(fns), spec2, comp, f'c{k}')  # same tag -> same file names
                 if fns2 == list(fns):
                     pipe = RecordingPipe()
